@@ -124,16 +124,18 @@ def diagStep (sizes : Ix → Nat) (lhs : List Ix) (ixd : Ix) : List (Option Nat)
 def diagLoop (sizes : Ix → Nat) : List Ix → List Ix → List (List (Option Nat)) × List Ix
   | [], lhs => ([], lhs)
   | ixd :: rest, lhs =>
-    let (sel, lhs') := diagStep sizes lhs ixd
-    let (sels, lhs'') := diagLoop sizes rest lhs'
-    (sel :: sels, lhs'')
+    let st := diagStep sizes lhs ixd
+    let r := diagLoop sizes rest st.2
+    (st.1 :: r.1, r.2)
 
 /-- `_parse_einsum_single` after `_sanitize_equation`; `none` = `ValueError` (`lhs.index`) -/
 def parseSingle (lhs out : List Ix) (shape : List Nat) : Option SinglePlan :=
-  let (nd, ns) := scan lhs out
+  let nd := (scan lhs out).1
+  let ns := (scan lhs out).2
   -- `need_to_diag.pop()` takes from the end
-  let (sels, lhs1) := diagLoop (lastSize lhs shape) nd.reverse lhs
-  let diag := if nd.isEmpty then none else some sels
+  let dl := diagLoop (lastSize lhs shape) nd.reverse lhs
+  let lhs1 := dl.2
+  let diag := if nd.isEmpty then none else some dl.1
   let sumAxes := if ns.isEmpty then none else some (ns.map lhs1.idxOf)
   let lhs2 := lhs1.filter fun ix => !has ns ix
   if lhs2 = out then some ⟨diag, sumAxes, none⟩
